@@ -26,6 +26,9 @@ CTYPE = {"png": "image/png", "jpeg": "image/jpeg", "jpg": "image/jpeg", "gif": "
 SOF_MARKERS = (0xC0, 0xC1, 0xC2, 0xC3, 0xC5, 0xC6, 0xC7, 0xC9, 0xCA, 0xCB, 0xCD, 0xCE, 0xCF)
 
 
+JP2_SIGNATURE = b"\x00\x00\x00\x0cjP  \r\n\x87\n"
+
+
 def png(w, h, tail=b""):
     ihdr = b"IHDR" + struct.pack(">II", w, h) + b"\x08\x02\x00\x00\x00"
     return b"\x89PNG\r\n\x1a\n" + struct.pack(">I", 13) + ihdr + struct.pack(">I", zlib.crc32(ihdr)) + tail
@@ -64,6 +67,8 @@ def image_bytes(m: dict) -> bytes:
         return jpeg(m["w"], m["h"], tail, segs=segs, sof=m.get("sof", 0xC0))
     if k == "raw":
         return tail
+    if k == "jp2":      # JPEG 2000 file: signature box, file-type box, then `tail`
+        return JP2_SIGNATURE + b"\x00\x00\x00\x14ftypjp2 \x00\x00\x00\x00jp2 " + tail
     raise ValueError(k)
 
 
@@ -118,13 +123,23 @@ PNS = f'xmlns:p="{P_NS}" xmlns:a="{A_NS}" xmlns:r="{R_NS}"'
 SLIDE_T = R_NS + "/slide"
 
 
+def pptx_slide_file(spec, ui):
+    """number f of the part ppt/slides/slide{f}.xml that stores the slide at position ui (0-based) of the deck:
+    opts.slide_files = permutation p, slide ui is stored in slide{p[ui]+1}.xml (PowerPoint keeps part names when
+    slides are re-ordered; the order of the deck is p:sldIdLst)"""
+    files = spec.get("opts", {}).get("slide_files")
+    return (files[ui] if files else ui) + 1
+
+
 def build_pptx(spec):
     n = len(spec["units"])
     mem = [("[Content_Types].xml", '<Types xmlns="http://schemas.openxmlformats.org/package/2006/content-types"/>')]
     mem.append(("ppt/presentation.xml", f"<p:presentation {PNS}><p:sldIdLst>" + "".join(
         f'<p:sldId id="{256 + i}" r:id="rId{i + 1}"/>' for i in range(n)) + "</p:sldIdLst></p:presentation>"))
-    mem.append(("ppt/_rels/presentation.xml.rels", _rels([(f"rId{i + 1}", SLIDE_T, f"slides/slide{i + 1}.xml", False) for i in range(n)])))
+    mem.append(("ppt/_rels/presentation.xml.rels", _rels([(f"rId{i + 1}", SLIDE_T, f"slides/slide{pptx_slide_file(spec, i)}.xml", False) for i in range(n)])))
+    slide_members = {}
     for ui, unit in enumerate(spec["units"]):
+        sf = pptx_slide_file(spec, ui)
         shapes, rels = [], []
         for k, a in enumerate(unit):
             rid = f"rImg{k + 1}"
@@ -136,10 +151,12 @@ def build_pptx(spec):
             rels.append((rid, IMG_T, a["ref"], a["t"] == "external"))
         if spec.get("opts", {}).get("rels_reversed"):
             rels.reverse()
-        mem.append((f"ppt/slides/slide{ui + 1}.xml", f"<p:sld {PNS}><p:cSld><p:spTree><p:sp><p:nvSpPr><p:cNvPr id=\"2\" name=\"T\"/><p:cNvSpPr/><p:nvPr/></p:nvSpPr>"
+        slide_members[sf] = [(f"ppt/slides/slide{sf}.xml", f"<p:sld {PNS}><p:cSld><p:spTree><p:sp><p:nvSpPr><p:cNvPr id=\"2\" name=\"T\"/><p:cNvSpPr/><p:nvPr/></p:nvSpPr>"
                     f"<p:spPr><a:xfrm><a:off x=\"0\" y=\"0\"/></a:xfrm></p:spPr><p:txBody><a:bodyPr/><a:p><a:r><a:t>slide {ui + 1}</a:t></a:r></a:p></p:txBody></p:sp>"
-                    + "".join(shapes) + "</p:spTree></p:cSld></p:sld>"))
-        mem.append((f"ppt/slides/_rels/slide{ui + 1}.xml.rels", _rels(rels)))
+                    + "".join(shapes) + "</p:spTree></p:cSld></p:sld>"),
+                             (f"ppt/slides/_rels/slide{sf}.xml.rels", _rels(rels))]
+    for sf in sorted(slide_members):          # members in part-number order, as PowerPoint writes them
+        mem.extend(slide_members[sf])
     return _zip(mem + _media_members(spec))
 
 
@@ -152,11 +169,12 @@ PIC_NS = "http://schemas.openxmlformats.org/drawingml/2006/picture"
 def docx_rels(spec):
     """(rid_of {(kind, ref): rId}, image relationships [(rId, type, target, external)] in the order of the rels part)"""
     rid_of, rels = {}, []
+    base = spec.get("opts", {}).get("rid_base", 10)     # rid_base 2: ids rId2 .. rId13: string order != numeric order
     for unit in spec["units"]:
         for a in unit:
             key = (a["t"], a["ref"])
             if key not in rid_of:
-                rid_of[key] = f"rId{len(rid_of) + 10}"
+                rid_of[key] = f"rId{len(rid_of) + base}"
                 rels.append((rid_of[key], IMG_T, a["ref"], a["t"] == "external"))
     order = spec.get("opts", {}).get("rels_order")
     if order is not None:      # a permutation of range(len(rels)): Word does not write rels in body order
@@ -348,6 +366,60 @@ def build_rtf(spec):
 
 
 # ----------------------------------------------------------------------------- PDF
+PDF_CODEC = {"jpeg": "/DCTDecode", "jpg": "/DCTDecode", "jp2": "/JPXDecode"}      # image codecs whose stream IS the image file
+
+
+def pdf_filters(m):
+    """decode chain of a media entry, outermost filter first (ISO 32000-1 7.4: the filters are applied in array order
+    when READING, so the LAST one is the codec the image was compressed with, the ones before it are transport /
+    general-purpose wrappers).  Default: the codec of the kind alone (raw samples: /FlateDecode)."""
+    return list(m.get("filters") or [PDF_CODEC.get(m["kind"], "/FlateDecode")])
+
+
+def pdf_filter_entry(m):
+    """text of the /Filter value (+ /DecodeParms when asked for): a name for a single filter unless
+    m["filter_form"] == "array"; always an array for a chain"""
+    fl = pdf_filters(m)
+    form = m.get("filter_form", "name")
+    txt = fl[0] if (len(fl) == 1 and form != "array") else "[" + " ".join(fl) + "]"
+    if m.get("parms"):
+        txt += " /DecodeParms " + ("null" if not txt.startswith("[") else "[" + " ".join("null" for _ in fl) + "]")
+    return txt
+
+
+def _run_length(data):
+    out = bytearray()
+    for i in range(0, len(data), 128):
+        c = data[i:i + 128]
+        out.append(len(c) - 1)
+        out += c
+    out.append(128)
+    return bytes(out)
+
+
+def pdf_encode(filters, data):
+    """stream bytes that the decode chain `filters` turns back into `data`; the image codecs (/DCTDecode, /JPXDecode)
+    stand for the image file itself"""
+    import base64
+    for f in reversed(filters):
+        if f in ("/DCTDecode", "/JPXDecode"):
+            continue
+        if f == "/FlateDecode":
+            data = zlib.compress(data)
+        elif f == "/LZWDecode":
+            from pypdf._codecs._codecs import LzwCodec
+            data = LzwCodec().encode(data)
+        elif f == "/ASCII85Decode":
+            data = base64.a85encode(data) + b"~>"
+        elif f == "/ASCIIHexDecode":
+            data = data.hex().encode() + b">"
+        elif f == "/RunLengthDecode":
+            data = _run_length(data)
+        else:
+            raise ValueError(f)
+    return data
+
+
 def build_pdf(spec):
     """units = pages; every anchor paints one image XObject (a["part"] names the media entry; kind jpeg is
     stored with /DCTDecode (the file itself), anything else as /FlateDecode of its bytes taken as raw samples).
@@ -365,10 +437,7 @@ def build_pdf(spec):
         data = image_bytes(m)
         num = alloc()
         img_obj[name] = num
-        if m["kind"] in ("jpeg", "jpg"):
-            flt, stream = "/DCTDecode", data
-        else:
-            flt, stream = "/FlateDecode", zlib.compress(data)
+        flt, stream = pdf_filter_entry(m), pdf_encode(pdf_filters(m), data)
         objs[num] = (f"<< /Type /XObject /Subtype /Image /Width {m['w']} /Height {m['h']} /ColorSpace /DeviceRGB /BitsPerComponent 8 /Filter {flt} /Length {len(stream)} >>\nstream\n".encode()
                      + stream + b"\nendstream")
     kids = []
